@@ -339,6 +339,35 @@ def _explore_job(args):
     return pname, X.bfs(factory(*fargs), depth, prefix=prefix, **kw)
 
 
+def _prefixes(model, depth):
+    """Histories of the distinct states at `depth` (like mc.explore._prefixes, but a transition that the model cuts -
+    `_cut` in a violation record - or that raises is not continued, exactly as in `bfs`)."""
+    from collections import deque
+    from mc import explore as X
+    seen = {X._h(model.canon(model.init()))}
+    frontier = deque([(model.init(), ())])
+    out = []
+    while frontier:
+        w, hist = frontier.popleft()
+        if len(hist) == depth:
+            out.append(hist)
+            continue
+        for ev in model.enabled(w):
+            nxt = X.snapshot(model, w)
+            try:
+                obs = model.apply(nxt, ev)
+            except Exception:  # noqa: BLE001
+                continue
+            if any(rec.get("_cut") for rec in (model.check(nxt, ev, obs, hist + (ev,)) or [])):
+                continue
+            k = X._h(model.canon(nxt))
+            if k in seen:
+                continue
+            seen.add(k)
+            frontier.append((nxt, hist + (ev,)))
+    return out
+
+
 def explore_parts(factory, plist, split, procs=16, **kw):
     """plist: [dict(name=..., fargs=(...), depth=n)].  The tree below every distinct state at depth `split` of every
     part is one pool job (`mc.explore.bfs(prefix=...)`); states are de-duplicated globally up to the split depth and
@@ -354,7 +383,7 @@ def explore_parts(factory, plist, split, procs=16, **kw):
         head.complete, head.cap_hit = True, None
         results[p["name"]] = head
         if p["depth"] > sd:
-            jobs += [(factory, p["fargs"], p["name"], pre, p["depth"], kw) for pre in X._prefixes(model, sd)]
+            jobs += [(factory, p["fargs"], p["name"], pre, p["depth"], kw) for pre in _prefixes(model, sd)]
     jobs.sort(key=lambda j: (j[2], repr(j[3])))
     if jobs:
         with mp.Pool(procs) as pool:
